@@ -131,6 +131,12 @@ def gen_cases(rng, tier, scale):
              ('{{eq (m_ret_i n) -4}}', 'true'), ('{{len (m_ret_i i)}}', '0')]
     for i, (t, exp) in enumerate(fixed):
         cases.append(rcase(f'x{i}', t, DATA, pre=['macros', 'esc 1'], entry=4, kind='fixed', exp=exp, tags=['fixed']))
+    # the written result of a macro helper passes through the registered escape function exactly once whatever its
+    # JSON type (marking escape fn: \x01 .. \x02), and not at all under {{{ }}}
+    for i, (t, exp) in enumerate([('{{m_ret_i i}}', '\x015\x02'), ('{{m_ret_b s}}', '\x01true\x02'), ('{{m_ret_b i}}', '\x01false\x02'),
+                                  ('{{m_str s}}', '\x01str:str\x02'), ('{{{m_ret_i i}}}', '5'), ('{{m_ret_i n}}|{{m0}}', '\x01-4\x02|\x01zero\x02'),
+                                  ('{{#each a}}{{m_ret_i 7}}{{/each}}', '\x017\x02\x017\x02')]):
+        cases.append(rcase(f'mk{i}', t, DATA, pre=['macros', 'esc 2'], entry=4, kind='fixed', exp=exp, tags=['escape-marking']))
     cases.append(rcase('esc0', '{{m_str lt}}|{{{m_str lt}}}', {'lt': '<'}, pre=['macros'], entry=4, kind='fixed', exp='str:&lt;|str:<', tags=['escape']))
     return cases
 
